@@ -1,5 +1,129 @@
-import ChumskyModel.Model.Spec
+/-
+  C01 — combinators implement PEG semantics: sequence, ordered choice, option, lookahead.
+
+  Property theorems only. Lemmas: Proofs/Lemmas/{StateOps,Refine,StepRefine,IterRefine,ErrRefine,Master,Top}.lean.
+  `env.memoOn = false` means: `memoized()` nodes (not part of the C01 class) are read as the identity; the driver
+  sets it for every grammar without `memoized` nodes, so this is exactly the configuration the correspondence runs.
+-/
+import ChumskyModel.Proofs.Lemmas.Top
+set_option linter.unusedSimpArgs false
 namespace Chumsky
-theorem c01_placeholder : True := trivial
-#print axioms c01_placeholder
+
+/-- **C01 (refinement).** For every grammar, environment (input, error kind, definitions), mode, state and fuel
+    the machine — checkpoints, rewinds, pending-error bookkeeping, modes — and the stateless PEG reading have the
+    same outcome; on success the same output value (in `check` mode: erased), the same position and inspector
+    (so "how much each sub-parser consumed" agrees, spans and slices being part of the values), the secondary
+    errors extended by exactly the reading's emissions; on failure the secondary errors are only extended. -/
+theorem c01_refines (n : Nat) (env : Env) (m : Mode) (g : G) (st : St) (hm : env.memoOn = false) :
+    Refines m st.errs st.ctx (run n env m g st) (peg n env g st.ss st.ctx) :=
+  run_refines n env m g st hm
+
+/-- **C01 (top level).** `parse`/`check` accept exactly when the PEG reading of "grammar then end of input"
+    succeeds from position 0, with the same output. -/
+theorem c01_parse (n : Nat) (env : Env) (m : Mode) (g : G) (hm : env.memoOn = false) :
+    TopRefines m (parseTop n env m g) (pegTop n env g) :=
+  parseTop_refines n env m g hm
+
+/-! ### the PEG reading, law by law (statements about the spec; with `c01_refines` they hold of the machine) -/
+
+/-- sequence: left to right, the second parser starts where the first ended -/
+theorem c01_then (n : Nat) (env : Env) (a b : G) (s : SS) (ctx : Val) :
+    peg (n + 1) env (.then_ a b) s ctx =
+      match peg n env a s ctx with
+      | .ok va s1 e1 => (match peg n env b s1 ctx with
+          | .ok vb s2 e2 => .ok (.pair va vb) s2 (e1 ++ e2)
+          | .fail => .fail | .panic w => .panic w | .oof => .oof)
+      | .fail => .fail | .panic w => .panic w | .oof => .oof := by
+  simp only [peg, pegStep, SOut.andThen]
+  cases peg n env a s ctx <;> simp
+  rename_i va s1 e1
+  cases peg n env b s1 ctx <;> simp
+
+/-- ordered choice commits to the first alternative that succeeds and never revisits it -/
+theorem c01_or_first (n : Nat) (env : Env) (a b : G) (s : SS) (ctx : Val) {v s' em}
+    (h : peg n env a s ctx = .ok v s' em) : peg (n + 1) env (.or_ a b) s ctx = .ok v s' em := by
+  simp [peg, pegStep, sChoice, h]
+
+/-- … and tries the second one, from the same position, only if the first fails -/
+theorem c01_or_second (n : Nat) (env : Env) (a b : G) (s : SS) (ctx : Val)
+    (h : peg n env a s ctx = .fail) : peg (n + 1) env (.or_ a b) s ctx = peg n env b s ctx := by
+  simp only [peg, pegStep, sChoice, h]
+  cases peg n env b s ctx <;> rfl
+
+/-- `choice` over a list (tuple or slice flavour): first success -/
+theorem c01_choice_cons_ok (n : Nat) (env : Env) (fl : ChoiceFlavour) (g : G) (gs : List G) (s : SS) (ctx : Val)
+    {v s' em} (h : peg n env g s ctx = .ok v s' em) :
+    peg (n + 1) env (.choice fl (g :: gs)) s ctx = .ok v s' em := by
+  cases fl <;> simp [peg, pegStep, sChoice, h]
+
+/-- option: `None` without consuming when the parser fails -/
+theorem c01_or_not (n : Nat) (env : Env) (a : G) (s : SS) (ctx : Val) :
+    peg (n + 1) env (.orNot a) s ctx =
+      match peg n env a s ctx with
+      | .ok v s' em => .ok (.some v) s' em
+      | .fail => .ok .none s []
+      | .panic w => .panic w | .oof => .oof := by
+  simp only [peg, pegStep]
+  cases peg n env a s ctx <;> rfl
+
+/-- negative lookahead consumes nothing and emits nothing -/
+theorem c01_not (n : Nat) (env : Env) (a : G) (s : SS) (ctx : Val) {v s' em}
+    (h : peg (n + 1) env (.not_ a) s ctx = .ok v s' em) : s' = s ∧ em = [] ∧ peg n env a s ctx = .fail := by
+  simp only [peg, pegStep] at h
+  cases ha : peg n env a s ctx <;> simp [ha] at h
+  exact ⟨h.2.1.symm, h.2.2, rfl⟩
+
+/-- `rewind` keeps the output and consumes nothing -/
+theorem c01_rewind (n : Nat) (env : Env) (a : G) (s : SS) (ctx : Val) {v s' em}
+    (h : peg (n + 1) env (.rewind a) s ctx = .ok v s' em) : s' = s ∧ ∃ s1, peg n env a s ctx = .ok v s1 em := by
+  simp only [peg, pegStep, SOut.andThen] at h
+  cases ha : peg n env a s ctx <;> simp [ha] at h
+  exact ⟨h.2.1.symm, _, by rw [h.1, h.2.2]⟩
+
+/-- `and_is`: both must match at the same position; the result (and the position) is the first one's -/
+theorem c01_and_is (n : Nat) (env : Env) (a b : G) (s : SS) (ctx : Val) {v s' em}
+    (h : peg (n + 1) env (.andIs a b) s ctx = .ok v s' em) :
+    ∃ e1 vb sb e2, peg n env a s ctx = .ok v s' e1 ∧ peg n env b s ctx = .ok vb sb e2 ∧ em = e1 ++ e2 := by
+  simp only [peg, pegStep, SOut.andThen] at h
+  cases ha : peg n env a s ctx <;> simp [ha] at h
+  rename_i va s1 e1
+  cases hb : peg n env b s ctx <;> simp [hb] at h
+  rename_i vb sb e2
+  obtain ⟨h1, h2, h3⟩ := h
+  subst h1 h2
+  exact ⟨e1, vb, sb, e2, rfl, rfl, h3.symm⟩
+
+/-- a rejecting `filter` counts as failure of that sub-parser -/
+theorem c01_filter_reject (n : Nat) (env : Env) (p : PredFn) (a : G) (s : SS) (ctx : Val) {v s1 e1}
+    (ha : peg n env a s ctx = .ok v s1 e1) (hp : p.eval v = false) :
+    peg (n + 1) env (.filter p a) s ctx = .fail := by
+  simp [peg, pegStep, SOut.andThen, ha, hp]
+
+/-- a rejecting `try_map` counts as failure of that sub-parser -/
+theorem c01_try_map_reject (n : Nat) (env : Env) (f : TryFn) (a : G) (s : SS) (ctx : Val) {v s1 e1}
+    (ha : peg n env a s ctx = .ok v s1 e1) (hp : f.rejectIf.eval v = true) :
+    peg (n + 1) env (.tryMap f a) s ctx = .fail := by
+  simp [peg, pegStep, SOut.andThen, ha, hp]
+
+/-- non-vacuity: a backtracking grammar with lookahead on a multi-byte `&str` input: the machine accepts with
+    the output (incl. the byte-offset span) the reading prescribes -/
+example :
+    (match parseTop 30 { toks := [97, 233], kind := .str, memoOn := false } .emit
+        (.or_ (.then_ (.just [97]) (.just [98])) (.then_ (.andIs .any (.not_ (.just [98]))) (.toSpan .any))) with
+      | .result r _ => (r.output, r.errs.length)
+      | _ => (none, 99)) = (some (.pair (.tok 97) (.span 1 3)), 0) := by
+  decide
+
+#print axioms c01_refines
+#print axioms c01_parse
+#print axioms c01_then
+#print axioms c01_or_first
+#print axioms c01_or_second
+#print axioms c01_choice_cons_ok
+#print axioms c01_or_not
+#print axioms c01_not
+#print axioms c01_rewind
+#print axioms c01_and_is
+#print axioms c01_filter_reject
+#print axioms c01_try_map_reject
 end Chumsky
